@@ -111,6 +111,10 @@ pub enum Ty {
     Opaque(String),
     /// a local closure bound by `let`
     Fn(Vec<Ty>, Box<Ty>),
+    /// `&[T]` / `&mut [T]`, modelled as a list
+    Slice(Box<Ty>),
+    /// `Result<T, E>`, modelled as the sum `T + E`
+    Result(Box<Ty>, Box<Ty>),
     /// a type of the `extern` table: an opaque Coq type with whitelisted accessor methods
     Extern(String),
 }
@@ -134,6 +138,8 @@ impl Ty {
             Ty::Infer => "_".into(),
             Ty::Opaque(w) => format!("<unsupported type: {}>", w),
             Ty::Extern(n) => n.clone(),
+            Ty::Slice(t) => format!("[{}]", t.show()),
+            Ty::Result(t, e) => format!("Result<{}, {}>", t.show(), e.show()),
             Ty::Fn(a, r) => format!("fn({}) -> {}", a.iter().map(|t| t.show()).collect::<Vec<_>>().join(", "), r.show()),
         }
     }
@@ -153,6 +159,8 @@ pub fn join(a: &Ty, b: &Ty) -> R<Ty> {
         (Ty::Param(x), Ty::Param(y)) if x == y => a.clone(),
         (Ty::Extern(x), Ty::Extern(y)) if x == y => a.clone(),
         (Ty::Option(x), Ty::Option(y)) => Ty::Option(Box::new(join(x, y)?)),
+        (Ty::Slice(x), Ty::Slice(y)) => Ty::Slice(Box::new(join(x, y)?)),
+        (Ty::Result(x, e), Ty::Result(y, f)) => Ty::Result(Box::new(join(x, y)?), Box::new(join(e, f)?)),
         (Ty::Range(x), Ty::Range(y)) => Ty::Range(Box::new(join(x, y)?)),
         (Ty::RangeIncl(x), Ty::RangeIncl(y)) => Ty::RangeIncl(Box::new(join(x, y)?)),
         (Ty::Tuple(x), Ty::Tuple(y)) if x.len() == y.len() => {
@@ -229,7 +237,39 @@ pub struct FnInfo {
     /// as leading parameters of the generated definition
     pub assoc_params: Vec<(String, Ty)>,
     pub params: Vec<(String, Ty)>,
+    /// parallel to `params`: the parameter is `&mut T` (its final value is part of the result)
+    pub mut_params: Vec<bool>,
+    /// macro parameters the definition depends on (leading arguments)
+    pub mvars: Vec<String>,
+    /// type parameters of the function, in order (to map a turbofish onto `assoc_params`)
+    pub generic_names: Vec<String>,
+    /// the (virtual) file of the definition
+    pub file: String,
     pub ret: Ty,
+    /// the body contains a loop (or calls a function that does): leading `fuel : nat` parameter, result in `option`
+    pub fuel: bool,
+}
+
+impl FnInfo {
+    pub fn has_mut_params(&self) -> bool {
+        self.mut_params.iter().any(|b| *b)
+    }
+    /// the components of the value the generated definition returns: new self, final values of `&mut` parameters, result
+    pub fn result_tys(&self) -> Vec<Ty> {
+        let mut v = vec![];
+        if self.self_kind == SelfKind::Mut {
+            v.push(Ty::Adt(self.self_ty.clone().unwrap()));
+        }
+        for ((_, t), m) in self.params.iter().zip(self.mut_params.iter()) {
+            if *m {
+                v.push(t.clone());
+            }
+        }
+        if self.ret != Ty::Unit {
+            v.push(self.ret.clone());
+        }
+        v
+    }
 }
 
 #[derive(Clone, Debug)]
@@ -238,6 +278,19 @@ pub struct ConstInfo {
     pub key: String,
     pub coq: String,
     pub ty: Ty,
+    /// macro parameters the definition depends on (leading arguments)
+    pub mvars: Vec<String>,
+    pub file: String,
+}
+
+/// a `$name` parameter of a macro_rules! arm translated as a template: the generated definitions that mention it
+/// (directly or through another definition of the template) take it as a leading argument
+#[derive(Clone, Debug)]
+pub struct MVar {
+    pub name: String,
+    pub ty: Ty,
+    /// Coq type of the binder when it is not a value of the subset (the table row of an abstract type)
+    pub coq_ty: Option<String>,
 }
 
 #[derive(Clone, Debug)]
@@ -246,11 +299,19 @@ pub struct ExternInfo {
     pub coq_ty: String,
     /// method name -> (return type, Coq function applied to the receiver)
     pub methods: Vec<(String, Ty, String)>,
+    /// for an abstract type of a macro template: the macro parameter (a table row) every member is applied to first
+    pub row: Option<String>,
+    /// associated constants: name -> (type, Coq function)
+    pub consts: Vec<(String, Ty, String)>,
+    /// associated functions: name -> (argument types, return type, Coq function)
+    pub statics: Vec<(String, Vec<Ty>, Ty, String)>,
 }
 
 #[derive(Default)]
 pub struct Tables {
     pub externs: BTreeMap<String, ExternInfo>,
+    /// macro parameters in declaration order
+    pub mvars: Vec<MVar>,
     /// type of an associated constant of a generic type parameter, by constant name
     pub assoc_tys: BTreeMap<String, Ty>,
     pub adts: BTreeMap<String, Adt>,
@@ -281,6 +342,8 @@ impl Tables {
             Ty::Range(t) | Ty::RangeIncl(t) => format!("({} * {})", self.coq_ty(t)?, self.coq_ty(t)?),
             Ty::Infer => "_".into(),
             Ty::Opaque(w) => return Err(format!("unsupported type: {}", w)),
+            Ty::Slice(t) => format!("(list {})", self.coq_ty(t)?),
+            Ty::Result(t, e) => format!("({} + {})", self.coq_ty(t)?, self.coq_ty(e)?),
             Ty::Fn(a, r) => format!("({} -> {})", a.iter().map(|t| self.coq_ty(t)).collect::<R<Vec<_>>>()?.join(" -> "), self.coq_ty(r)?),
             Ty::Extern(n) => match self.externs.get(n) {
                 Some(e) => e.coq_ty.clone(),
@@ -291,6 +354,45 @@ impl Tables {
                 None => return Err(format!("generic type parameter `{}` has no `tyvar` mapping", p)),
             },
         })
+    }
+    /// the table entry a type name written in `cur_file` refers to.  Keys may carry a module qualifier
+    /// (`rectangle.Points`, `line.Points`) when two Rust types share an identifier.
+    pub fn resolve_name(&self, name: &str, cur_file: &str, self_ty: Option<&str>) -> Option<Ty> {
+        if self.adts.contains_key(name) {
+            return Some(Ty::Adt(name.to_string()));
+        }
+        if self.externs.contains_key(name) {
+            return Some(Ty::Extern(name.to_string()));
+        }
+        let suffix = format!(".{}", name.rsplit('.').next().unwrap());
+        if let Some(st) = self_ty {
+            if st.ends_with(&suffix) && self.adts.contains_key(st) {
+                return Some(Ty::Adt(st.to_string()));
+            }
+        }
+        if name.contains('.') {
+            return None;
+        }
+        let cands: Vec<&String> = self.adts.keys().filter(|k| k.ends_with(&suffix)).collect();
+        if cands.len() == 1 {
+            return Some(Ty::Adt(cands[0].clone()));
+        }
+        let dir = |f: &str| f.rsplit_once('/').map(|x| x.0.to_string()).unwrap_or_default();
+        let here = dir(cur_file);
+        let same: Vec<&&String> = cands
+            .iter()
+            .filter(|k| {
+                let origin = match &self.adts[**k] {
+                    Adt::Struct(s) => s.origin.clone(),
+                    Adt::Enum(e) => e.origin.clone(),
+                };
+                dir(origin.split(':').next().unwrap()) == here
+            })
+            .collect();
+        if same.len() == 1 {
+            return Some(Ty::Adt((**same[0]).clone()));
+        }
+        None
     }
     pub fn struct_info(&self, n: &str) -> Option<&StructInfo> {
         match self.adts.get(n) {
@@ -315,6 +417,8 @@ pub fn subst_ty(t: &Ty, m: &BTreeMap<String, Ty>) -> Ty {
         Ty::RangeIncl(x) => Ty::RangeIncl(Box::new(subst_ty(x, m))),
         Ty::Tuple(xs) => Ty::Tuple(xs.iter().map(|x| subst_ty(x, m)).collect()),
         Ty::Fn(a, r) => Ty::Fn(a.iter().map(|x| subst_ty(x, m)).collect(), Box::new(subst_ty(r, m))),
+        Ty::Slice(x) => Ty::Slice(Box::new(subst_ty(x, m))),
+        Ty::Result(x, e) => Ty::Result(Box::new(subst_ty(x, m)), Box::new(subst_ty(e, m))),
         _ => t.clone(),
     }
 }
